@@ -22,6 +22,27 @@ for tc in ET.parse(junit).getroot().iter('testcase'):
     if not any(c.tag in ('failure', 'error', 'skipped') for c in tc):
         passed.add(f"{tc.get('classname')}::{tc.get('name')}")
 missing = [t for t in base['stable_pass'] if t not in passed]
+# tests/test_parsing.py::test_each_unit_roundtrips samples 100 of ~45k units at random (hypothesis, no fixed seed) and
+# fails whenever the sample contains one of the units whose str() does not parse back (property C13's known findings):
+# it is flaky on the pristine tree too.  Re-run a missing test alone, up to 3 times, before calling it missing.
+still = []
+for t in missing:
+    mod, name = t.split('::', 1)
+    path = mod.replace('.', '/') + '.py'
+    ok = False
+    if os.path.exists(os.path.join('/repo', path)) and len(missing) <= 5:
+        for _ in range(3):
+            _clean()
+            r = subprocess.run(['/venv/bin/python', '-m', 'pytest', '-q', '-p', 'no:cacheprovider',
+                                f'{path}::{name}'], cwd='/repo', env=env, stdout=subprocess.DEVNULL, stderr=subprocess.DEVNULL)
+            if r.returncode == 0:
+                ok = True
+                break
+    if ok:
+        print('  flaky, passed on re-run:', t)
+    else:
+        still.append(t)
+missing = still
 print(f"stable_pass={len(base['stable_pass'])} passed_now={len(passed)} missing={len(missing)}")
 for m in missing[:40]:
     print("  MISSING", m)
